@@ -23,6 +23,8 @@
      DieOnEof              the receive loop ends when the server closes the connection
      HintKeyedByServerId   the element-type hint of a vector result is looked up under the server's msg_id
      NoHintInsideGzip      the hint does not reach a result that travels gzip-packed
+     CleanupLastIdOnEncodeFail  a call that fails before it has an id (its request cannot be serialised) "cleans up" the
+                           table entry of the newest id - another caller's (seeded change C09_14)
    With Dev = {} the properties below hold (checked by TLC); each deviation alone breaks one.
 
    The same module generates schedules for the harness: `hist` records the controllable
@@ -32,6 +34,7 @@ EXTENDS Integers, Sequences, FiniteSets, TLC
 CONSTANTS Callers, MaxTick, MaxRot, MaxAtt, FreshKey, Dev,
           MaxJunk,  \* how many items nobody waits for the server may put into its answers
           MaxClose, \* how many times the server may close the connection (orderly, at a moment when no request is being sent)
+          MaxBad,   \* how many calls the application may make whose request cannot be serialised (they fail at once)
           Kinds     \* result kinds callers may ask for: "obj" (self-describing) and/or "vec" (a bare vector: the decoder
                     \* needs the element type the request registered - the hint)
 
@@ -46,10 +49,11 @@ VARIABLES clock, lastId,
           kind,                   \* per caller: result kind of its request
           hint,                   \* request ids for which an element-type hint is registered
           epoch, cconn,           \* the server's current connection number; the connection the client is on
+          nBad,                   \* calls that failed at serialisation so far
           hist
-vars == <<clock, lastId, pc, mid, att, got, lock, seqNo, tab, c2s, srvNext, srvSalt, srvAcc, srvDone, s2c, loop, salt, store, junk, nCont, kind, hint, epoch, cconn, hist>>
-view == <<clock, lastId, pc, mid, att, got, lock, seqNo, tab, c2s, srvNext, srvSalt, srvAcc, srvDone, s2c, loop, salt, store, junk, nCont, kind, hint, epoch, cconn>>
-aux == <<junk, nCont, kind, hint, epoch, cconn>>
+vars == <<clock, lastId, pc, mid, att, got, lock, seqNo, tab, c2s, srvNext, srvSalt, srvAcc, srvDone, s2c, loop, salt, store, junk, nCont, kind, hint, epoch, cconn, nBad, hist>>
+view == <<clock, lastId, pc, mid, att, got, lock, seqNo, tab, c2s, srvNext, srvSalt, srvAcc, srvDone, s2c, loop, salt, store, junk, nCont, kind, hint, epoch, cconn, nBad>>
+aux == <<junk, nCont, kind, hint, epoch, cconn, nBad>>
 
 None == [t |-> "none"]
 GzChoices == IF "vec" \in Kinds THEN BOOLEAN ELSE {FALSE}     \* gzip only matters for the decoder's hints
@@ -69,7 +73,7 @@ Init ==
   /\ s2c = <<>> /\ loop = [pc |-> "read"] /\ salt = 0 /\ store = 0
   /\ junk = 0 /\ nCont = 0
   /\ kind \in [Callers -> Kinds] /\ hint = {}
-  /\ epoch = 1 /\ cconn = 1
+  /\ epoch = 1 /\ cconn = 1 /\ nBad = 0
   /\ hist = <<>>
 
 Tick == clock < MaxTick /\ clock' = clock + 1
@@ -94,7 +98,7 @@ GenId(c) ==
 Register(c) ==
   /\ pc[c] = "reg"
   /\ tab' = (mid[c] :> Chan(c)) @@ tab
-  /\ hint' = (IF kind[c] = "vec" THEN hint \cup {mid[c]} ELSE hint) /\ UNCHANGED <<junk, nCont, kind, epoch, cconn>>
+  /\ hint' = (IF kind[c] = "vec" THEN hint \cup {mid[c]} ELSE hint) /\ UNCHANGED <<junk, nCont, kind, epoch, cconn, nBad>>
   /\ pc' = [pc EXCEPT ![c] = IF Outside THEN "acquire" ELSE "write"]
   /\ UNCHANGED <<clock, lastId, mid, att, got, lock, seqNo, c2s, srvNext, srvSalt, srvAcc, srvDone, s2c, loop, salt, store, hist>>
 Acquire(c) ==
@@ -115,6 +119,17 @@ Wake(c) ==    \* the caller took a value from its channel (placed there by the l
        ELSE /\ pc' = [pc EXCEPT ![c] = "done"] /\ UNCHANGED <<att, got>>
   /\ UNCHANGED aux /\ UNCHANGED <<clock, lastId, mid, lock, seqNo, tab, c2s, srvNext, srvSalt, srvAcc, srvDone, s2c, loop, salt, store, hist>>
 
+\* a call whose request cannot be serialised (a required field left nil) fails before anything of the send path is touched:
+\* no id, no table entry, no lock - whatever else is going on
+EncodeFail ==
+  /\ nBad < MaxBad /\ nBad' = nBad + 1
+  /\ IF "CleanupLastIdOnEncodeFail" \in Dev /\ lastId \in DOMAIN tab
+       THEN tab' = [k \in DOMAIN tab \ {lastId} |-> tab[k]] /\ hint' = hint \ {lastId}
+       ELSE UNCHANGED <<tab, hint>>
+  /\ hist' = Append(hist, [a |-> "BadCall"])
+  /\ UNCHANGED <<junk, nCont, kind, epoch, cconn>>
+  /\ UNCHANGED <<clock, lastId, pc, mid, att, got, lock, seqNo, c2s, srvNext, srvSalt, srvAcc, srvDone, s2c, loop, salt, store>>
+
 (* ---------------- conformant server ---------------- *)
 SrvRecv ==
   /\ srvNext <= Len(c2s) /\ cconn = epoch
@@ -131,7 +146,7 @@ SrvRecv ==
 SrvAnswer(S, j, gz) ==
   /\ (S # {} \/ j) /\ S \subseteq srvAcc /\ cconn = epoch
   /\ j => junk < MaxJunk
-  /\ junk' = (IF j THEN junk + 1 ELSE junk) /\ UNCHANGED <<nCont, kind, hint, epoch, cconn>>
+  /\ junk' = (IF j THEN junk + 1 ELSE junk) /\ UNCHANGED <<nCont, kind, hint, epoch, cconn, nBad>>
   /\ s2c' = Append(s2c, [t |-> "results", ids |-> S \cup (IF j THEN {0} ELSE {}), content |-> TRUE, gz |-> gz,
                         vec |-> {id \in S : \E k \in 1..Len(c2s) : c2s[k].id = id /\ c2s[k].rk = "vec"}])
   /\ srvAcc' = srvAcc \ S /\ srvDone' = srvDone \cup S
@@ -154,7 +169,7 @@ SrvClose ==
   /\ epoch' = epoch + 1
   /\ s2c' = Append(s2c, [t |-> "eof"])
   /\ hist' = Append(hist, [a |-> "Close"])
-  /\ UNCHANGED <<junk, nCont, kind, hint, cconn>>
+  /\ UNCHANGED <<junk, nCont, kind, hint, cconn, nBad>>
   /\ UNCHANGED <<clock, lastId, pc, mid, att, got, lock, seqNo, tab, c2s, srvNext, srvSalt, srvAcc, srvDone, loop, salt, store>>
 
 (* ---------------- receive loop ---------------- *)
@@ -172,7 +187,7 @@ LoopEof ==
 LoopReconnect ==
   /\ loop.pc = "reconnect"
   /\ cconn' = epoch /\ loop' = [pc |-> "read"]
-  /\ UNCHANGED <<junk, nCont, kind, hint, epoch>>
+  /\ UNCHANGED <<junk, nCont, kind, hint, epoch, nBad>>
   /\ UNCHANGED <<clock, lastId, pc, mid, att, got, lock, seqNo, tab, c2s, srvNext, srvSalt, srvAcc, srvDone, s2c, salt, store, hist>>
 LoopRead ==
   /\ loop.pc = "read" /\ s2c # <<>> /\ Head(s2c).t # "eof"
@@ -218,7 +233,7 @@ LoopDeliver ==
                 \* as coded: a result nobody waits for is an error before the acknowledgement is sent
                 ELSE IF "NoAckForUnknownResult" \in Dev THEN [loop EXCEPT !.todo = Tail(@), !.ack = FALSE]
                 ELSE [loop EXCEPT !.todo = Tail(@)]
-  /\ UNCHANGED <<junk, nCont, kind, epoch, cconn>>
+  /\ UNCHANGED <<junk, nCont, kind, epoch, cconn, nBad>>
   /\ UNCHANGED <<clock, lastId, mid, att, lock, seqNo, c2s, srvNext, srvSalt, srvAcc, srvDone, s2c, salt, store, hist>>
 LoopNotify ==
   /\ loop.pc = "notify" /\ loop.todo # <<>>
@@ -229,7 +244,7 @@ LoopNotify ==
      /\ tab' = IF "StaleEntryAfterNotify" \in Dev THEN tab ELSE [j \in Keys \ {k} |-> tab[j]]
      /\ hint' = IF "StaleEntryAfterNotify" \in Dev THEN hint ELSE hint \ {k}
   /\ loop' = [loop EXCEPT !.todo = Tail(@)]
-  /\ UNCHANGED <<junk, nCont, kind, epoch, cconn>> /\ UNCHANGED <<clock, lastId, mid, att, lock, seqNo, c2s, srvNext, srvSalt, srvAcc, srvDone, s2c, salt, store, hist>>
+  /\ UNCHANGED <<junk, nCont, kind, epoch, cconn, nBad>> /\ UNCHANGED <<clock, lastId, mid, att, lock, seqNo, c2s, srvNext, srvSalt, srvAcc, srvDone, s2c, salt, store, hist>>
 \* end of a message: acknowledge it if it was content-related (through the send path), else read on
 LoopEnd ==
   /\ loop.pc \in {"items", "notify"} /\ loop.todo = <<>>
@@ -239,12 +254,12 @@ LoopEnd ==
             /\ lastId' = FreshId /\ seqNo' = seqNo + 2
        ELSE UNCHANGED <<c2s, lastId, seqNo>>
   /\ loop' = [pc |-> "read"]
-  /\ nCont' = (IF loop.content THEN nCont + 1 ELSE nCont) /\ UNCHANGED <<junk, kind, hint, epoch, cconn>>
+  /\ nCont' = (IF loop.content THEN nCont + 1 ELSE nCont) /\ UNCHANGED <<junk, kind, hint, epoch, cconn, nBad>>
   /\ UNCHANGED <<clock, pc, mid, att, got, lock, tab, srvNext, srvSalt, srvAcc, srvDone, s2c, salt, store, hist>>
 
 Finished == (\A c \in Callers : pc[c] = "done" \/ att[c] > MaxAtt) /\ UNCHANGED vars
 Next ==
-  \/ Finished \/ Tick \/ SrvRecv \/ SrvRotate \/ SrvClose \/ LoopEof \/ LoopReconnect \/ LoopRead \/ LoopDeliver \/ LoopNotify \/ LoopEnd
+  \/ Finished \/ Tick \/ EncodeFail \/ SrvRecv \/ SrvRotate \/ SrvClose \/ LoopEof \/ LoopReconnect \/ LoopRead \/ LoopDeliver \/ LoopNotify \/ LoopEnd
   \/ \E c \in Callers : Begin(c) \/ GenId(c) \/ Register(c) \/ Acquire(c) \/ Write(c) \/ Wake(c)
   \/ \E S \in SUBSET srvAcc, j \in BOOLEAN, gz \in GzChoices : SrvAnswer(S, j, gz)
 Fair == /\ WF_vars(SrvRecv) /\ WF_vars(LoopRead) /\ WF_vars(LoopEof) /\ WF_vars(LoopReconnect) /\ WF_vars(LoopDeliver) /\ WF_vars(LoopNotify) /\ WF_vars(LoopEnd)
